@@ -20,6 +20,7 @@ to_float_ok = z3.Function("to_float_ok", Str, z3.BoolSort())
 to_float_fn = z3.Function("to_float_fn", Str, XR)
 lookup = z3.Function("lookup_by_name", SeqRef, Str, Ref)
 is_hedge = z3.Function("is_hedge_name", Str, z3.BoolSort())
+hedge_tok = z3.Function("constructed_from_name", Ref, Str)      # ghost: the registered name a hedge object was constructed from (HedgeFactory.construct(name))
 
 
 class NameMapV:
@@ -177,7 +178,7 @@ class ParserExec(HeapExec):
         if isinstance(recv, FactoryV) and meth == "construct" and recv.which == "hedge":
             tok = s.unwrap("str", args[0])
             h = s.fresh(Ref, "hedge")
-            p.pc += [h != NONE, cls_of(h) == z3.If(tok == strc("any"), s.schema.ids["Any"], s.schema.ids["Hedge"])]
+            p.pc += [h != NONE, cls_of(h) == z3.If(tok == strc("any"), s.schema.ids["Any"], s.schema.ids["Hedge"]), hedge_tok(h) == tok]
             return RefV(h, "Hedge")
         if isinstance(recv, StrV):
             if meth == "split" and not args:
